@@ -29,6 +29,7 @@ Definition proj_eqb (a b : nproj) : bool :=
   && role_eqb (p_role a) (p_role b) && opt_nat_eqb (p_lead a) (p_lead b) && log_eqb (p_log a) (p_log b).
 
 Definition memb (m : msg) (l : list msg) : bool := existsb (msg_eqb m) l.
+Definition memb_msg := memb.
 
 Inductive verdict : Type :=
 | VOk (x' : xstate)
